@@ -634,6 +634,10 @@ func GenWorldCfg(g *Rng, opt GenOpts) (World, map[string]any) {
 		}
 		if g.Bool(0.3) {
 			debBlock["triggers"] = map[string]any{"interest": []any{"some-trigger"}, "activate_noawait": []any{"other-trigger"}}
+			if g.Bool(0.5) {
+				// a name repeated in a row (kept as written)
+				debBlock["triggers"] = map[string]any{"interest": []any{"/usr/share/icons", "/usr/share/icons", "/usr/share/applications"}, "activate": []any{"t1", "t1"}}
+			}
 		}
 		if g.Bool(0.3) {
 			debBlock["breaks"] = []any{"brokenpkg (<< 1.0)"}
